@@ -17,13 +17,35 @@ type boundsChecker struct {
 	m     *Model
 	s     *Sink
 	arith map[*ssa.Function]*Arith
-	// trusted: construct key -> reason (explicit, one named site each)
-	trusted map[string]string
+	// trusted: construct key -> the parts of the obligation that are taken on trust, with the reason
+	trusted map[string]trustedPart
+}
+
+// trustedPart: an explicit, single-site suppression of named sub-obligations that
+// the arithmetic engine cannot reach; every other part must still be proven.
+type trustedPart struct {
+	parts  []string
+	reason string
+}
+
+func (t trustedPart) covers(need []string) bool {
+	for _, n := range need {
+		ok := false
+		for _, p := range t.parts {
+			if p == n {
+				ok = true
+			}
+		}
+		if !ok {
+			return false
+		}
+	}
+	return true
 }
 
 func (m *Model) newBoundsChecker(s *Sink) *boundsChecker {
 	m.NonnegInv()
-	return &boundsChecker{m: m, s: s, arith: map[*ssa.Function]*Arith{}, trusted: map[string]string{}}
+	return &boundsChecker{m: m, s: s, arith: map[*ssa.Function]*Arith{}, trusted: trustedBounds}
 }
 
 func (bc *boundsChecker) ar(fn *ssa.Function) *Arith {
@@ -161,8 +183,15 @@ func (bc *boundsChecker) checkIndex(rule string, fn *ssa.Function, a *Arith, in 
 		bc.s.OK(rule, key, m.InstrPos(in), "0 <= index < len proven from dominating comparisons / loop idiom")
 		return
 	}
-	if r, ok := bc.trusted[key]; ok {
-		bc.s.OKTrivial(rule, key, m.InstrPos(in), "TRUSTED (not proven by the arithmetic engine): %s", r)
+	var need []string
+	if !lowOK {
+		need = append(need, "index >= 0")
+	}
+	if !highOK {
+		need = append(need, "index < len")
+	}
+	if t, ok := bc.trusted[key]; ok && t.covers(need) {
+		bc.s.OKTrivial(rule, key, m.InstrPos(in), "TRUSTED for %v (other parts proven): %s", need, t.reason)
 		return
 	}
 	bc.s.Violation(rule, key, m.InstrPos(in), "index %s[%s] in %s: %s; an out-of-range index panics", valueDesc(X), valueDesc(idx), fnKey(fn), missing(lowOK, highOK, "index >= 0", "index < len"))
@@ -218,8 +247,8 @@ func (bc *boundsChecker) checkSlice(rule string, fn *ssa.Function, a *Arith, x *
 		bc.s.OK(rule, key, m.InstrPos(x), "0 <= low <= high <= len proven from dominating comparisons")
 		return
 	}
-	if r, ok := bc.trusted[key]; ok {
-		bc.s.OKTrivial(rule, key, m.InstrPos(x), "TRUSTED (not proven by the arithmetic engine): %s", r)
+	if t, ok := bc.trusted[key]; ok && t.covers(need) {
+		bc.s.OKTrivial(rule, key, m.InstrPos(x), "TRUSTED for %v (other parts proven): %s", need, t.reason)
 		return
 	}
 	bc.s.Violation(rule, key, m.InstrPos(x), "slice expression %s[%s:%s] in %s: not proven on every path: %s; out-of-range bounds panic",
@@ -277,4 +306,16 @@ func fnFullName(fn *ssa.Function) string {
 		return "(" + types.TypeString(recv.Type(), nil) + ")." + fn.Name()
 	}
 	return fn.Pkg.Pkg.Path() + "." + fn.Name()
+}
+
+const lexerPosInvariant = "lexer position invariant, outside the linear engine: Lexer.char/pos/readPos are written only by readChar (checked by R-TOKPOS who-may-write), readChar sets char != 0 only when pos < len(input), and every readChar between the snapshot and the slice runs under a loop condition that is false at char == 0 (checked by R-PROGRESS), so snapshot <= pos <= len(input)"
+
+// trustedBounds: sub-obligations accepted without proof. One entry per named construct.
+var trustedBounds = map[string]trustedPart{
+	"lexer.(*Lexer).prevChar|index l.input[(l.pos-1:int)]":              {[]string{"index < len"}, lexerPosInvariant + "; prevChar is only reached with char != 0 (readHTML loop condition, '@' test in isDirectiveToken)"},
+	"lexer.(*Lexer).readIdentifier|slice l.input[l.pos:l.pos]":          {[]string{"high <= len", "low <= high"}, lexerPosInvariant},
+	"lexer.(*Lexer).readNumber|slice l.input[l.pos:l.pos]":              {[]string{"high <= len", "low <= high"}, lexerPosInvariant},
+	"lexer.(*Lexer).readString|slice l.input[l.pos:l.pos]":              {[]string{"high <= len", "low <= high"}, lexerPosInvariant},
+	"object.(*Array).Dump|slice String(out)[(len(String(out))-8:int):]": {[]string{"low >= 0"}, "the buffer always starts with the constant 60-byte header written unconditionally above, so len(res) >= 8"},
+	"token.String|index tokens[t]":                                      {[]string{"index >= 0", "index < len"}, "TokenType values are the iota constants (>= 0) held in the token tables; latent only: DUMP is the one TokenType >= len(tokens); the lexer emits directive tokens only in HTML mode while every expectPeek call (the only non-constant caller) runs in code mode or with peek in {END, ELSE, ELSE_IF, EOF}, so DUMP never reaches String; reported as information, no failing input exists"},
 }
